@@ -118,9 +118,10 @@ def macroRepl (rec : Rec) (env : Env) (text : Str) (silent simple : Bool) (mt : 
         Gen.P.macros_render_2.subM value (paramRepl rec paramsList)
       else if c == '!' || c == '=' then
         let pattern := ptail
-        match env.compile ("^".toList ++ pattern ++ "\\Z".toList) 0 with
+        match env.compile pattern 0 with
         | .ok p =>
-          let skip0 := (p.matchStart value).isNone
+          -- `re.fullmatch(pattern, value)`: the pattern as a whole, up to the end of the value
+          let skip0 := (({ p with re := .seq p.re .eos } : Pat).matchStart value).isNone
           let skip := if c == '!' then !skip0 else skip0
           return if skip then [Char.ofNat 2] else []
         | .error =>
@@ -128,7 +129,7 @@ def macroRepl (rec : Rec) (env : Env) (text : Str) (silent simple : Bool) (mt : 
             errorCallback ("illegal macro regular expression: ".toList ++ pattern ++ ": ".toList ++ text)
           return whole
         | .unsupported => raise (.unsupportedRegex pattern)
-        | .missing => raise (.needCompile ("^".toList ++ pattern ++ "\\Z".toList) 0)
+        | .missing => raise (.needCompile pattern 0)
       else
         errorCallback ("illegal macro syntax: ".toList ++ whole)
         return []
@@ -344,10 +345,11 @@ def extendQuote (q0 : Char) : Str → Nat
   | c :: rest => if c == q0 then extendQuote q0 rest + 1 else 0
 
 /-- `spans.fragQuote` on the text of a not-done fragment (outer loop and recursion on the quoted
-    text; both strictly shorten the text, so `fuel = |text| + 1` suffices). -/
-def fragQuoteLoop (defs : List QuoteDef) : Nat → Str → M (List Fragment)
-  | 0, _ => raise .outOfFuel
-  | fuel+1, text => do
+    text; both strictly shorten the text, so `fuel = |text| + 1` suffices); `depth` is the number of quotes around
+    the text: beyond `MAX_QUOTE_DEPTH` the quoted text is left as text. -/
+def fragQuoteLoop (defs : List QuoteDef) : Nat → Nat → Str → M (List Fragment)
+  | 0, _, _ => raise .outOfFuel
+  | fuel+1, depth, text => do
     let qre := quotesRe defs
     match ← findQuote qre text (text.length + 2) 0 with
     | none => pure [{ text := text, done := false }]
@@ -367,15 +369,19 @@ def fragQuoteLoop (defs : List QuoteDef) : Nat → Str → M (List Fragment)
       let after := text.drop nextIndex
       let inner ← if !qdef.spans then
           pure [{ text := replaceAll (replaceSpecialChars quoted) [Char.ofNat 0] [Char.ofNat 1], done := true : Fragment }]
-        else fragQuoteLoop defs fuel quoted
-      let restFrags ← fragQuoteLoop defs fuel after
+        else if depth ≥ Gen.maxQuoteDepth then do
+          -- too deeply nested to go on: the quoted text is text
+          errorCallback ("quote nesting limit exceeded: ".toList ++ quote)
+          pure [{ text := quoted, done := false : Fragment }]
+        else fragQuoteLoop defs fuel (depth + 1) quoted
+      let restFrags ← fragQuoteLoop defs fuel depth after
       pure ({ text := before, done := false } :: { text := qdef.openTag, done := true } :: inner ++
             [{ text := qdef.closeTag, done := true }] ++ restFrags)
 
 /-- `spans.fragQuote(fragment)` -/
 def fragQuote (defs : List QuoteDef) (fragment : Fragment) : M (List Fragment) :=
   if fragment.done then pure [fragment]
-  else fragQuoteLoop defs (fragment.text.length + 1) fragment.text
+  else fragQuoteLoop defs (fragment.text.length + 1) 0 fragment.text
 
 /-- `spans.render(source)` given the recursion record for nested renders. -/
 def spansRender (rec : Rec) (env : Env) (source : Str) : M Str := do
